@@ -1,9 +1,12 @@
 #!/bin/sh
-# tools/try_patch.sh <patch.diff> <PROP>... : apply to /repo, run quick checks, undo.
+# tools/try_patch.sh <patch.diff> <PROP>... : apply to /repo, run quick checks, undo. Evidence files are preserved.
 P="$1"; shift
-git -C /repo apply "$P" || { echo "patch does not apply"; exit 9; }
+BK=$(mktemp -d); cp -r /verif/evidence "$BK/" 2>/dev/null
+git -C /repo apply "$P" || { echo "patch does not apply"; rm -rf "$BK"; exit 9; }
 for id in "$@"; do
-  /verif/vp check "$id" 2>&1 | grep -E "VIOLATION|UNDECIDED|CRASH|KNOWN|obligations=" | cut -c1-300
-  echo "rc($id)=$?"
+  /verif/vp check "$id" > "$BK/out.txt" 2>&1; rc=$?
+  grep -E "VIOLATION|UNDECIDED|CRASH|KNOWN|obligations=" "$BK/out.txt" | cut -c1-300
+  echo "rc($id)=$rc"
 done
 git -C /repo checkout -- . ; git -C /repo status --short | head -3
+rm -rf /verif/evidence; cp -r "$BK/evidence" /verif/evidence 2>/dev/null; rm -rf "$BK"
